@@ -230,3 +230,161 @@ def encode_popon(prog, start_frame=30, min_gap=6):
 
 def scc_doc(lines):
     return E.scc_text([(tc, ws) for tc, ws, _ in lines])
+
+
+# ------------------------------------------------------------------------------- roll-up / paint-on
+
+PLAIN_POOL = 'abcdefghijklmnopqrstuvwxyzABCDEFGHIJKLMNOPQRSTUVWXYZ0123456789'
+
+
+def plain_text(rng, n, tag=''):
+    """n characters: letters/digits with single inner blanks, no blank at either end."""
+    s = tag
+    while len(s) < n:
+        if s and s[-1] != ' ' and len(s) < n - 1 and rng.random() < 0.18:
+            s += ' '
+        else:
+            s += rng.choice(PLAIN_POOL)
+    return s[:n] if not s[:n].endswith(' ') else s[:n - 1] + 'x'
+
+
+def text_items(rng, s, rich=False, single=True):
+    items = []
+    for k, ch in enumerate(s):
+        # the row keeps its length: a special / extended character replaces a character
+        if rich and k > 4 and ch != ' ' and rng.random() < 0.06:
+            it = ['sp', rng.choice(SPECIAL_IDX)] if rng.random() < 0.5 else ['ext', rng.choice(EXT_POOL)]
+            if not (single and items and items[-1] == it):
+                items.append(it)
+                continue
+        items.append(['c', ch])
+    return items
+
+
+def items_display(items):
+    cells = []
+    for it in items:
+        if it[0] == 'c':
+            cells.append(it[1])
+        elif it[0] == 'sp':
+            cells.append(E.SPECIAL[it[1]])
+        elif it[0] == 'ext':
+            cells.append(it[1])
+        elif it[0] == 'bs' and cells:
+            cells.pop()
+    return ''.join(cells)
+
+
+def gen_stream(rng, modes=None, rich=False, lengths=None, tagged=True):
+    """A stream of roll-up / paint-on (and optionally a final pop-on) segments.
+    -> {'doubled', 'drop', 'start_frame', 'segments': [{'mode': 'roll'|'paint'|'pop', ...}]}"""
+    doubled = rng.random() < 0.5
+    single = not doubled
+    st = {'doubled': doubled, 'drop': rng.random() < 0.5,
+          'start_frame': rng.choice([0, 0, 1, 29, 30, 45, 1800, 107990]), 'segments': []}
+    modes = modes or rng.choice([['roll'], ['paint'], ['roll', 'paint'], ['paint', 'roll'], ['roll', 'pop'],
+                                 ['paint', 'pop'], ['roll', 'roll']])
+    counter = [0]
+
+    def row_text(maxlen=32):
+        counter[0] += 1
+        n = rng.choice(lengths) if lengths else rng.randrange(3, maxlen + 1)
+        tag = ('R%d' % counter[0]) if tagged and n >= 4 else ''
+        return plain_text(rng, n, tag)
+
+    for m in modes:
+        if m == 'roll':
+            depth = rng.choice([2, 3, 4])
+            base = rng.choice([15, 15, 14, 13, 12])
+            nrows = rng.randrange(1, 9)
+            seg = {'mode': 'roll', 'depth': depth, 'base': base, 'resend_ru': rng.random() < 0.4, 'rows': []}
+            for _ in range(nrows):
+                col = rng.choice([0, 0, 4, 8])
+                t = row_text(32 - col if not lengths else 40)
+                seg['rows'].append({'col': col, 'items': text_items(rng, t, rich, single),
+                                    'gap': rng.choice([0, 1, 5, 20, 60])})
+            st['segments'].append(seg)
+        elif m == 'paint':
+            seg = {'mode': 'paint', 'lines': []}
+            for _ in range(rng.randrange(1, 6)):
+                k = rng.choice([1, 1, 2, 3])
+                r0 = rng.randrange(1, 16 - k + 1)
+                rows = list(range(r0, r0 + k))
+                if lengths and k > 1 and rng.random() < 0.5:
+                    rows = sorted(rng.sample(range(1, 16), k))
+                line = {'rows': [], 'gap': rng.choice([0, 1, 5, 20, 60]), 'rdc': True}
+                for r in rows:
+                    col = rng.choice([0, 0, 4])
+                    t = row_text(32 - col if not lengths else 40)
+                    line['rows'].append({'row': r, 'col': col, 'items': text_items(rng, t, rich, single)})
+                seg['lines'].append(line)
+            st['segments'].append(seg)
+        else:
+            seg = {'mode': 'pop', 'captions': []}
+            for _ in range(rng.randrange(1, 3)):
+                k = rng.choice([1, 2, 3])
+                rows = sorted(rng.sample(range(1, 16), k)) if rng.random() < 0.6 else list(range(5, 5 + k))
+                cap = {'rows': [], 'gap': rng.choice([10, 40]), 'edm': rng.choice(['inline', 'none'])}
+                for r in rows:
+                    col = rng.choice([0, 0, 4])
+                    t = row_text(32 - col if not lengths else 40)
+                    cap['rows'].append({'row': r, 'col': col, 'items': text_items(rng, t, rich, single)})
+                seg['captions'].append(cap)
+            st['segments'].append(seg)
+    return st
+
+
+def encode_stream(st):
+    """-> lines [(timecode, words, frame)], rows [display text of every transmitted row in order]."""
+    d = st['doubled']
+    lines = []
+    rows_sent = []
+    frame = st['start_frame']
+
+    def ctl(ws, name):
+        ws.append(E.ctrl(name))
+        if d:
+            ws.append(E.ctrl(name))
+
+    def emit(ws, gap):
+        nonlocal frame
+        frame += gap
+        lines.append((E.timecode(frame, st['drop']), ws, frame))
+        frame += len(ws) + 1
+
+    def rowspec(row, r):
+        return {'row': row, 'col': r['col'], 'to': 0, 'pac_italic': False, 'pac_underline': False,
+                'pac_color': None, 'items': r['items']}
+
+    for seg in st['segments']:
+        if seg['mode'] == 'roll':
+            ru = {2: 'RU2', 3: 'RU3', 4: 'RU4'}[seg['depth']]
+            for i, r in enumerate(seg['rows']):
+                ws = []
+                if i == 0 or seg['resend_ru']:
+                    ctl(ws, ru)
+                ctl(ws, 'CR')
+                ws.extend(encode_row(rowspec(seg['base'], r), d))
+                rows_sent.append(items_display(r['items']))
+                emit(ws, r['gap'])
+        elif seg['mode'] == 'paint':
+            for ln in seg['lines']:
+                ws = []
+                ctl(ws, 'RDC')
+                for r in ln['rows']:
+                    ws.extend(encode_row(rowspec(r['row'], r), d))
+                    rows_sent.append(items_display(r['items']))
+                emit(ws, ln['gap'])
+        else:
+            for cap in seg['captions']:
+                ws = []
+                ctl(ws, 'ENM')
+                ctl(ws, 'RCL')
+                for r in cap['rows']:
+                    ws.extend(encode_row(rowspec(r['row'], r), d))
+                    rows_sent.append(items_display(r['items']))
+                if cap['edm'] == 'inline':
+                    ctl(ws, 'EDM')
+                ctl(ws, 'EOC')
+                emit(ws, cap['gap'])
+    return lines, rows_sent
